@@ -103,6 +103,8 @@ A_FULL = (
         "\x0c",  # FF: str.splitlines, control
         "\U0001F600",  # astral
         "\ud800",  # lone surrogate (str only)
+        "\u017f",  # LATIN SMALL LETTER LONG S: case-folds to ASCII 's' (re.IGNORECASE, str.casefold/upper)
+        "\u212a",  # KELVIN SIGN: case-folds to ASCII 'k'
     ]
 )
 A_MID = list("aeE_01.-+") + ['"', "\\", "u", "n", "#", " ", "\n", ",", "{", "(", ":", "$", "!", "\u0663", "\u00b2", "\u00e9", "\x00"]
@@ -117,7 +119,7 @@ A_MICRO = ['"', "\\", "a", "\n"]  # quote runs: "" vs """ openers, \""" inside b
 ALPHABETS = {"FULL": A_FULL, "MID": A_MID, "Q4": A_Q4, "CORE": A_CORE, "TINY": A_TINY, "HEX": A_HEX, "HEXQ": A_HEXQ, "MICRO": A_MICRO}
 assert len(A_HEX) == 20 and len(set(A_HEX)) == 20 and len(A_HEXQ) == 14 and set(A_HEXQ) <= set(A_HEX)
 assert len(A_Q4) == 20 and set(A_Q4) <= set(A_MID)
-assert len(A_FULL) == 57 and len(set(A_FULL)) == 57
+assert len(A_FULL) == 59 and len(set(A_FULL)) == 59
 assert len(A_MID) == 26 and len(set(A_MID)) == 26 and set(A_MID) <= set(A_FULL)
 assert len(A_CORE) == 16 and len(set(A_CORE)) == 16 and set(A_CORE) <= set(A_FULL)
 assert len(A_TINY) == 8 and set(A_TINY) <= set(A_FULL)
